@@ -65,8 +65,17 @@ def main():
                                  "tail": out.strip().split("\n")[-1][:200]}
         dst = os.path.join(ROOT, "seeded", seed_id)
         os.makedirs(dst, exist_ok=True)
-        for f in ("patch.diff", "demo.py", "notes.md"):
-            shutil.copy(os.path.join(src, f), os.path.join(dst, f))
+        if os.path.realpath(src) != os.path.realpath(dst):
+            for f in ("patch.diff", "demo.py", "notes.md"):
+                shutil.copy(os.path.join(src, f), os.path.join(dst, f))
+        if os.path.exists(os.path.join(dst, "meta.json")):      # keep the hand-written annotations of an earlier evaluation
+            with open(os.path.join(dst, "meta.json")) as fh:
+                old = json.load(fh)
+            for k in ("needs_to_manifest", "missed_at_first", "check_strengthened_by", "first_evaluation"):
+                if k in old:
+                    meta[k] = old[k]
+            if "first_evaluation" not in meta and old.get("checks"):
+                meta["first_evaluation"] = {c: {"caught": r.get("caught"), "violations": r.get("violations", [])[:1]} for c, r in old["checks"].items()}
         meta["valid"] = bool(meta["suite_ok"] and rc1 == 1 and rc0 == 0)
         with open(os.path.join(dst, "meta.json"), "w") as fh:
             json.dump(meta, fh, indent=1)
